@@ -32,17 +32,24 @@ func HGenBook() (DBNodeMap, *HBook) {
 	db := NewDBNodeMap()
 	ref := &HBook{Rec: map[string][]HIng{}}
 	ns := verifBound("bookshapes", 2)
+	unit := verifBound("unitamounts", 0) == 1 // amounts are the constant 1: contributions are the quantities themselves
+	amount := func() float64 {
+		if unit {
+			return 1
+		}
+		return verifFloat("amt")
+	}
 	for _, r := range []string{HR0, HR1} {
 		els := NewElements()
 		var ings []HIng
 		shape := verifChoose("shape", ns)
 		if shape == 0 || shape == 1 {
-			a := verifFloat("amt")
+			a := amount()
 			els.Add(HX, a)
 			ings = append(ings, HIng{HX, a})
 		}
 		if shape == 1 || shape == 2 {
-			a := verifFloat("amt")
+			a := amount()
 			els.Add(HY, a)
 			ings = append(ings, HIng{HY, a})
 		}
